@@ -6,7 +6,7 @@ checks against it:  applies the patch to /repo, runs the unedited baseline (must
 demonstration (must fail), runs ./check for the listed properties (quick tier), reverts /repo,
 runs the demonstration on the clean tree (must pass), and stores everything in seeded/<name>/.
 """
-import sys, os, re, json, subprocess, shutil, time
+import sys, os, re, json, subprocess, shutil, time, fcntl
 
 ROOT = os.path.dirname(os.path.abspath(__file__))
 ENV = dict(os.environ, GOFLAGS="-mod=mod", GOPROXY="off", GOSUMDB="off", GOTOOLCHAIN="local")
@@ -35,6 +35,10 @@ def main():
     assert out.strip() == "", "/repo not clean: " + out
     meta = {"property": prop, "name": name, "checked_at": time.strftime("%Y-%m-%dT%H:%M:%SZ", time.gmtime()), "ran": []}
     demo_dst = os.path.join("/repo", pkgdir, "zz_seed_demo_test.go")
+    # exclusive lock on /repo for as long as the change is applied (checks take it shared while they build)
+    lockf = open("/repo/.git/verif-seed.lock", "w")
+    fcntl.flock(lockf, fcntl.LOCK_EX)
+    ENV["VERIF_SEED_HOLDER"] = "1"
     try:
         rc, out = sh(f"git -C /repo apply {patch}")
         assert rc == 0, "patch does not apply: " + out
@@ -67,6 +71,8 @@ def main():
         sh("git -C /repo checkout -- . && git -C /repo clean -fdq -- . ':!quadtree/verif_hooks.go'")
         # evidence files now describe a run against the CHANGED tree: put the committed ones back
         sh("git checkout -- evidence/", cwd=ROOT)
+        ENV.pop("VERIF_SEED_HOLDER", None)
+        fcntl.flock(lockf, fcntl.LOCK_UN); lockf.close()
     shutil.copy(demo, demo_dst)
     rc, out = sh(f"go test {race}-vet=off -count=1 ./{pkgdir}/ 2>&1 | tail -5", cwd="/repo")
     os.remove(demo_dst)
